@@ -1,4 +1,5 @@
 import OvniModel.Generated.All
+import OvniModel.Emu.HandlerFacts
 import OvniModel.Emu.EvSpec
 
 /-!
@@ -18,6 +19,12 @@ context is permissive (`stateGuard` holds and the payload has the declared shape
 
 The `switch` statements are represented as data (`Disp`) so that one lemma
 ("a dispatcher accepts exactly its keys") serves the eight models.
+
+The data itself is **not written here**: `disp` and `stateGuard` are computed
+from `Generated.Handlers` (the `case` labels of every category / value switch,
+the function each case calls, the guards before the switch — read off clang's
+AST of `/repo`'s current `event.c` on every run).  The values that used to be
+hand-written are kept in `Props/Gen.lean` and proved equal to the derived ones.
 -/
 namespace Ovni.Emu.Dispatch
 open Ovni.Emu.EvSpec
@@ -93,37 +100,44 @@ inductive Rule
 structure Disp where
   cats : List (Nat × Rule)
   dflt : Bool
+  deriving DecidableEq, Repr
 
 def chars (s : String) : List Nat := ofString s
 
 def catsTab (s : String) : List (Nat × Rule) := (chars s).map (fun c => (c, Rule.tab))
 
-/-- The dispatch of each model, read off `event.c`. -/
-def disp : ModelId → Disp
-  | .ovni => {                      -- model_ovni_event
-      cats := [(72, .vals (chars "Cxeprcw")),   -- 'H' pre_thread
-               (65, .vals (chars "sr")),        -- 'A' pre_affinity
-               (66, .any),                      -- 'B' pre_burst
-               (67, .vals (chars "n")),         -- 'C' pre_cpu (old OCn, ignored with a warning)
-               (70, .vals (chars "[]")),        -- 'F' pre_flush
-               (85, .any),                      -- 'U' "ignore sorting events"
-               (77, .vals (chars "[]="))],      -- 'M' mark_event
-      dflt := false }
-  | .nanos6 => {                    -- nanos6/event.c process_ev
-      cats := catsTab "CSUFOtHDBWMP" ++
-              [(84, .vals (chars "Ccxerp")),    -- 'T' pre_task ('C': old 6TC, ignored with a warning)
-               (89, .vals (chars "c"))],        -- 'Y' pre_type
-      dflt := false }
-  | .nosv => {                      -- nosv/event.c process_ev
-      cats := catsTab "SUMHAP" ++
-              [(84, .vals (chars "Ccxerp")),    -- 'T' pre_task
-               (89, .vals (chars "c"))],        -- 'Y' pre_type
-      dflt := false }
-  | .nodes => { cats := catsTab "RUWITCSP", dflt := false }
-  | .tampi => { cats := [], dflt := true }
-  | .mpi => { cats := [], dflt := true }
-  | .kernel => { cats := [(67, .vals (chars "OI"))], dflt := false }   -- 'C' context_switch
-  | .openmp => { cats := [], dflt := true }
+/-- the generated facts of each handler -/
+def ModelId.facts : ModelId → Ovni.Generated.Handlers.Facts
+  | .ovni => Ovni.Generated.Handlers.ovni
+  | .nanos6 => Ovni.Generated.Handlers.nanos6
+  | .nosv => Ovni.Generated.Handlers.nosv
+  | .nodes => Ovni.Generated.Handlers.nodes
+  | .tampi => Ovni.Generated.Handlers.tampi
+  | .mpi => Ovni.Generated.Handlers.mpi
+  | .kernel => Ovni.Generated.Handlers.kernel
+  | .openmp => Ovni.Generated.Handlers.openmp
+
+/-- What one `case` of the category switch does with the value byte: the
+    function it calls indexes the event table (`tab`), has a `switch` on the
+    value or starts with `if (v != 'x') return -1` (`vals`), or never looks at
+    the value (`any`: `pre_burst`, the bare `return 0` of `OU*`). -/
+def ruleOf (f : Ovni.Generated.Handlers.Facts) (c : Ovni.Generated.Handlers.Case) : Rule :=
+  if f.tableFns.contains c.callee then .tab
+  else match f.valSwitch c.callee with
+    | some s => .vals (s.cases.map (·.label))
+    | none =>
+      match f.valueTests.lookup c.callee with
+      | some vs => .vals vs
+      | none => .any
+
+/-- The dispatch described by the generated facts of a handler. -/
+def dispOf (f : Ovni.Generated.Handlers.Facts) : Disp :=
+  match f.catSwitch with
+  | some s => { cats := s.cases.map (fun c => (c.label, ruleOf f c)), dflt := false }
+  | none => { cats := [], dflt := f.directTable }
+
+/-- The dispatch of each model, as `event.c` has it now. -/
+def disp (M : ModelId) : Disp := dispOf M.facts
 
 /-- Does the dispatcher reach a handler that knows `(c, v)`? -/
 def Disp.accepts (d : Disp) (keys : List (Nat × Nat)) (c v : Nat) : Bool :=
@@ -145,13 +159,12 @@ structure Ctx where
   running : Bool     -- thread->is_running
   outOfCpu : Bool    -- thread->is_out_of_cpu (between KCO and KCI)
 
-/-- The thread-state guard each handler evaluates before dispatching. -/
-def stateGuard : ModelId → Ctx → Bool
-  | .ovni, x => !x.outOfCpu
-  | .nanos6, x => x.active
-  | .nosv, x => x.active && !x.outOfCpu
-  | .nodes, x | .tampi, x | .mpi, x | .openmp, x => x.running
-  | .kernel, _ => true
+/-- The thread-state guard each handler evaluates before dispatching (the
+    `if (…) return -1` tests on `emu->thread` found before the switch). -/
+def stateGuardOf (f : Ovni.Generated.Handlers.Facts) (x : Ctx) : Bool :=
+  (!f.needsRunning || x.running) && (!f.needsActive || x.active) && (!f.checkOutOfCpu || !x.outOfCpu)
+
+def stateGuard (M : ModelId) (x : Ctx) : Bool := stateGuardOf M.facts x
 
 /-- a running thread that is on its CPU -/
 def permissive : Ctx := { active := true, running := true, outOfCpu := false }
